@@ -61,7 +61,7 @@ def generate(rng, prop, tier):
         elif kind == 'advance':
             op['dt'] = rng.choice([1, 2, 3600])
         ops.append(op)
-    return {'engine': 'syncsim', 'prop': prop, 'backend': B.config(label, 's0'), 'ops': ops,
+    return {'engine': 'syncsim', 'prop': prop, 'backend': B.config(label, B.odd_name(rng, label, 's0')), 'ops': ops,
             'kseed': rng.below(1 << 30), 'seedfill': rng.chance(0.3) and
             [[rng.choice(keys), rng.choice(vals)] for _ in range(rng.randint(1, 3))] or [],
             # sparse: cache and archives are read back only every few steps and at the end, so that the
